@@ -3,7 +3,7 @@ traces on the extracted model; shared by the protocol properties."""
 import os, concurrent.futures
 from . import core, scen
 
-TRACES = os.path.join(core.BUILD, 'traces')
+TRACES = os.environ.get('VERIF_TRACES') or os.path.join(core.BUILD, 'traces')
 
 
 def run_one(name, text, keep=True):
